@@ -26,7 +26,7 @@ impl C07 {
 }
 
 /// which fields of a length error are not truthful (compared with the closest admissible report)
-fn untruthful_fields(f: &Fault, e: &NErr) -> String {
+pub fn untruthful_fields(f: &Fault, e: &NErr) -> String {
     match e {
         NErr::Len {
             required,
